@@ -4,6 +4,7 @@
 mod gen;
 mod gen2;
 mod ops;
+mod ops19;
 mod wire;
 
 use biodivine_boolean_functions::bdd::Bdd;
@@ -77,6 +78,23 @@ fn main() {
                 let sexps = wire::parse_sexps(rest);
                 let a: Vec<wire::Arg> = sexps.iter().map(wire::dec_arg).collect();
                 writeln!(out, "{}", ops::case_line(prop, op, &a, true)).unwrap();
+            }
+            out.flush().unwrap();
+        }
+        // C19: requests answered through the Rust API with observable renderings only
+        "exec19" => {
+            let stdin = std::io::stdin();
+            let mut out = std::io::BufWriter::new(std::io::stdout());
+            for line in stdin.lock().lines() {
+                let line = line.unwrap();
+                let head = line.split(" => ").next().unwrap_or("");
+                let mut parts = head.splitn(3, ' ');
+                let _prop = parts.next().unwrap_or("");
+                let op = parts.next().unwrap_or("");
+                let rest = parts.next().unwrap_or("");
+                let sexps = wire::parse_sexps(rest);
+                let a: Vec<wire::Arg> = sexps.iter().map(wire::dec_arg).collect();
+                writeln!(out, "{}", ops19::run19(op, &a)).unwrap();
             }
             out.flush().unwrap();
         }
